@@ -60,22 +60,22 @@ Print Assumptions adopt_equal.
 Theorem adopted_modifiers_eperm_identity : forall inc c,
   has_guard c = true -> adopted_call inc c = Refused EPERM_ /\ call_kind c = Modifier.
 Proof. exact hw_adopted_modifiers_eperm_identity. Qed.
-(* as the code stands the other structure-modifying calls are NOT refused: they write or free mapped memory *)
+(* every structure-modifying call that is given the topology is refused (fix 18c90e7 added the memattr / cpukinds / refresh guards) *)
+Theorem adopted_modifiers_eperm_partial : forall inc c,
+  call_kind c = Modifier -> c <> CObjAddInfo -> adopted_call inc c = Refused EPERM_.
+Proof. exact hw_adopted_modifiers_eperm_partial. Qed.
+(* REFUTED for hwloc_obj_add_info only: no topology argument, it reallocs the mapped infos array (documented as forbidden) *)
 Theorem adopted_modifiers_eperm_refuted : exists c, call_kind c = Modifier /\ adopted_call true c = Fault.
 Proof. exact hw_adopted_modifiers_refuted. Qed.
-Theorem adopted_modifiers_eperm_partial : forall c inc, call_kind c = Modifier -> has_guard c = false ->
-  In c [CMemattrRegister; CMemattrSetValue; CCpukindsRegister; CRefresh; CObjAddInfo] /\ adopted_call inc c = Fault.
-Proof. exact hw_unguarded_modifiers. Qed.
 
-(* REFUTED twice on the current code: hwloc_topology_allow (permitted) and the first memattr query (consulting) *)
-Theorem adopted_no_fault_refuted :
-  (exists c, call_kind c = Permitted /\ adopted_call true c = Fault) /\
-  (exists c, call_kind c = Consulting /\ adopted_call true c = Fault).
-Proof. exact hw_adopted_no_fault_refuted. Qed.
-Theorem adopted_no_fault_partial : forall inc c,
-  call_kind c <> Modifier -> c <> CAllow -> c <> CMemattrQuery -> adopted_call inc c = Ok.
-Proof. exact hw_adopted_no_fault_partial. Qed.
-Print Assumptions adopted_no_fault_partial.
+(* full statement since fixes 13a2f04 and e8b5396: no consulting or permitted call writes the read-only mapping *)
+Theorem adopted_no_fault : forall inc c,
+  call_kind c <> Modifier ->
+  adopted_call inc c = Ok \/ (c = CAllow /\ inc = false /\ adopted_call inc c = Refused EINVAL_).
+Proof. exact hw_adopted_no_fault. Qed.
+Print Assumptions adopted_no_fault.
+Theorem allow_works_when_include_disallowed : adopted_call true CAllow = Ok /\ writes true CAllow = Some Private.
+Proof. exact hw_allow_works. Qed.
 
 (* non-vacuity: the distances block of Properties_C12 written at 4096 *)
 Definition ex_tree : tree :=
@@ -86,5 +86,5 @@ Example ex_length :
   cursor_end ex_tree 4096 = 4096 + 24 + 160 /\
   rev (snd (snd (write_run ex_tree 4096))) = [(88, 4120); (4, 4208); (16, 4216); (16, 4232); (32, 4248)].
 Proof. vm_compute. repeat split. Qed.
-Example ex_guarded : has_guard CRestrict = true /\ adopted_call true CRestrict = Refused EPERM_.
-Proof. split; reflexivity. Qed.
+Example ex_guarded : has_guard CRestrict = true /\ adopted_call true CRestrict = Refused EPERM_ /\ call_kind CMemattrQuery <> Modifier.
+Proof. repeat split; discriminate. Qed.
